@@ -232,6 +232,8 @@ def gen_specs(r, n_random):
             if i % 5 == 3:
                 spec["attrs"] = {"detail": valtext.to_text(gen_small(r)), "code": "I%d" % r.below(9)}
             specs.append(spec)
+    # a bare StopIteration that carries extra data: the marker path drops it (admitted deviation, see ASSUMPTIONS)
+    specs.append({"cls": "builtins:StopIteration", "args": "( )", "kwargs": {}, "attrs": {"detail": "I3", "note": "S110"}})
     custom = []
     for cs, argl in CUSTOM:
         for a in argl:
@@ -408,15 +410,22 @@ def direct_product_obj(exc, configs, with_tb=True):
         yield s, r, model_line_rt(s[:2] + "FF", rec[0], "d", r, env, fmt, table, rec, obs["base"]), obs, info
 
 
-def first_hop(spec, s1, r1):
+FOREIGN_VERSION = "4.1.0"
+
+
+def first_hop(spec, s1, r1, foreign=False):
     """the exception object a first receiver (switches r1) builds from what a first sender (switches s1) dumps; None when the
-    first hop does not end in an exception instance (marker path, load error)"""
+    first hop does not end in an exception instance (marker path, load error).  foreign: the first sender runs another major
+    version of rpyc (its record names FOREIGN_VERSION), so the receiver appends its version warning to the traceback text"""
     from rpyc.core import vinegar, brine
     exc = build_exc(spec)
     t, v, tb = capture(exc)
     sf, rf = flags(s1), flags(r1)
     try:
-        obj = vinegar.load(brine.load(brine.dump(vinegar.dump(t, v, tb, sf[0], sf[1]))), rf[0], rf[1], rf[2])
+        payload = vinegar.dump(t, v, tb, sf[0], True if foreign else sf[1])
+        if foreign and type(payload) is tuple:
+            payload = (payload[0], payload[1], payload[2][:-1] + ((payload[2][-1][0], FOREIGN_VERSION),), payload[3])
+        obj = vinegar.load(brine.load(brine.dump(payload)), rf[0], rf[1], rf[2])
     except Exception:  # noqa
         obj = None
     for m in [m for m in ("c09pool_fresh", "c09pool_broken", "c09pool_lazytarget") if m in sys.modules]:
@@ -425,9 +434,9 @@ def first_hop(spec, s1, r1):
     return obj if isinstance(obj, BaseException) else None
 
 
-def two_hop_product(spec, s1, r1, configs2):
+def two_hop_product(spec, s1, r1, configs2, foreign=False):
     """hop one under (s1, r1), then the received object raised on: dump -> brine -> load under each (s2, r2) of configs2"""
-    obj = first_hop(spec, s1, r1)
+    obj = first_hop(spec, s1, r1, foreign)
     if obj is None:
         raise Skip("the first hop does not end in an exception instance")
     for item in direct_product_obj(obj, configs2, True):
